@@ -582,11 +582,20 @@ def run(c):
                 ("cover4", lambda: transition_cover(sizes, 4, FULL + NEG))]
         desc = ("[(full 25 ops w<=3, L=3, sizes 1..2), (full+negative, L=2, sizes 0..3), (mid 14 ops, L=3, sizes 0..3), (core 8 ops, L=4, "
                 "sizes 1..3), (tiny 5 ops, L=5, sizes 1..2), (12 ops incl. WaitEmpty, L=3, sizes 0..2)]; transition cover depth 4")
-    for name, gen in plan:
-        ls = gen()
-        c.count("lines:" + name, len(ls))
-        process(name, ls)
-        del ls
+    if c.thorough:
+        for name, gen in plan:
+            ls = gen()
+            c.count("lines:" + name, len(ls))
+            process(name, ls)
+            del ls
+    else:
+        # quick tier: one tie for all exhaustive families (process start-up dominates on a loaded machine)
+        allq = []
+        for name, gen in plan:
+            ls = gen()
+            c.count("lines:" + name, len(ls))
+            allq += ls
+        process("exhaustive", allq)
 
     # ---------------- concurrent mixes under the race detector (search only)
     soak = []
